@@ -197,6 +197,7 @@ def analyse(body, spec=None, carries=lambda ty, cm: cm, track_all_vars=False):
             if spec.reset_takes(ti[3].show(body), body.blocks[bi].term.callee.path):
                 spec.reset_takes_blocks.add(bi)
     EB = ExprBuilder(cfg)
+    EBF = ExprBuilder(cfg, fold_named=True)
 
     def block_effect(b, facts):
         # statements: assignment to a drained root kills the drained fact
@@ -272,6 +273,16 @@ def analyse(body, spec=None, carries=lambda ty, cm: cm, track_all_vars=False):
                     is_true_edge = True
                 if is_true_edge is not None and is_true_edge == truth:
                     facts = frozenset(facts | {(fact,)})
+            # integer switch (`match n { 1 => .. }`): the edge for value v carries the fact of the condition `e == v`
+            d_ty = (Operand(b.term.d['d']).ty or '')
+            if d_ty not in ('bool', ''):
+                e2 = EBF.switch_cond(b)
+                for (pred, truth, fact) in spec.cond_facts:
+                    if (fact,) in facts or truth is not True:
+                        continue
+                    for v, t in b.term.d['vals']:
+                        if t == tgt and pred(('bin', 'Eq', e2, ('const', v))):
+                            facts = frozenset(facts | {(fact,)})
         # excuse edges: switch directly on the call result (bool) in the block after the call
         if b.term.k == 'switch' and excuse_calls:
             d = Operand(b.term.d['d'])
